@@ -33,13 +33,16 @@ func runC04(c *Ctx) error {
 		o := specReceive(spec.Server, conn.VerifPD().Enabled, limit, spec.Utf8, takeover, bits, stream)
 		replay := map[string]any{"spec": fmt.Sprintf("%+v", spec), "stream_hex": fmt.Sprintf("%x", head(stream, 300)), "stream_len": len(stream), "tag": tag,
 			"observed_kind": obs.Kind, "observed_status": obs.A, "panic": obs.Panic}
-		if why, sig := judgeInbound(o, obs); why != "" {
+		why, sig, skip := judgeStream(o, obs)
+		if why != "" {
 			c.oracleFail(why+" ["+tag+"]", sig, replay)
 		}
 		if obs.PeakAlloc > allocBudget(limit, len(stream)) {
 			c.oracleFail(fmt.Sprintf("allocated %d bytes while reading with limit %d [%s]", obs.PeakAlloc, limit, tag), "over-allocation", replay)
 		}
-		inboundCase(c, spec, conn, stream, o, obs, tag)
+		if !skip {
+			inboundCase(c, spec, conn, stream, o, obs, tag)
+		}
 		c.count(fmt.Sprintf("%v%x", spec.Server, stream), true, "kind="+tag[:3], "end="+o.Kind, fmt.Sprintf("observed_kind=%d", obs.Kind))
 		return nil
 	}
